@@ -79,28 +79,11 @@ CFG = {
     ],
     "assumptions": [
         "the implementation is tied to the models only on the generated histories (correspondence), not by proof",
-        "looping methods are only issued on arrays of length <= 200; a failing delete on longer arrays is skipped "
-        "(it does not terminate in reasonable time: finding C07-N8)",
+        "looping methods are only issued on arrays of length <= 200",
         "a divergence from S is attributed to a recorded finding only when the faithful model I reproduces the observation "
         "through the diverging op and that op lies in that finding's region (tags computed inside Coq)",
     ],
-    "predicates": {
-        "C07.tag6_pvc_undercount_after_transition": _tag(6, r"OSetLen|ODefLen"),
-        "C07.tag3_fastpath_guard_with_holes": _tag(3, r"OIncludes|OIndexOf|OReverse|OFill|OCopyWithin|OSort|OSplice|OPop|OExport"),
-        "C07.tag1_stale_valueproperty_writable": _tag(1, r"ODefine", r"Some \(Ob (RU|\(RB true\)) .*Some \(Ob (RU|\(RB true\))"),
-        "C07.tag1_stale_valueproperty_set": _tag(1, r"OSet |OPush|OUnshift|OSplice|OReverse|OFill|OCopyWithin|OSort|OShift"),
-        "C07.tag1_stale_valueproperty_getter": _tag(1, r"OGet|OSlice|OConcat|OIndexOf|OIncludes|OExport|OPop|OShift"),
-        "C07.tag7_invalid_length_on_nonwritable": _tag(7, r"OSetLen|OPush|OUnshift", r"Some \(Ob \(RErr 1\).*Some \(Ob \(RErr 2\)"),
-        "C07.tag8_splice_fastpath_nonwritable_length": _tag(8),
-        "C07.tag9_splice_fastpath_nonextensible": _tag(9, r"OSplice"),
-        "C07.export_hostpanic_after_pvc_undercount": lambda case, record, exp: (
-            (record.get("obs") or "").startswith("HOSTPANIC: Cannot export valueProperty")
-            and any(o.get("o") == "export" for o in case.get("ops", []))
-            and any(o.get("o") == "def" and o.get("k", 0) > 4096 and
-                    not all(x in (o.get("d") or {}) and (o["d"][x] is True or x == "v") for x in ("v", "w", "e", "c"))
-                    for o in case.get("ops", []))
-            and bool(case.get("twin"))),
-    },
+    "predicates": {},     # no open finding: every divergence from S is a violation
     "manifest": {
         "text": ("proof: the Array exotic object (ArraySetLength, index [[DefineOwnProperty]], [[Set]], delete, get/has with holes) is "
                  "modelled as spec S over a finite map; goja's dense (values[]+counters) and sparse (sorted items[]) storages, both "
